@@ -69,18 +69,30 @@ var (
 )
 
 func attributeExists(args ...Object) Object {
+	if len(args) != 1 {
+		return newError("incorrect number of operands for operator or function; operator or function: attribute_exists, number of operands: %d", len(args))
+	}
+
 	path := args[0]
 
 	return nativeBoolToBooleanObject(path.Type() != ObjectTypeNull)
 }
 
 func attributeNotExists(args ...Object) Object {
+	if len(args) != 1 {
+		return newError("incorrect number of operands for operator or function; operator or function: attribute_not_exists, number of operands: %d", len(args))
+	}
+
 	path := args[0]
 
 	return nativeBoolToBooleanObject(path.Type() == ObjectTypeNull)
 }
 
 func attributeType(args ...Object) Object {
+	if len(args) != 2 {
+		return newError("incorrect number of operands for operator or function; operator or function: attribute_type, number of operands: %d", len(args))
+	}
+
 	path := args[0]
 	typ := args[1]
 
@@ -97,6 +109,10 @@ func attributeType(args ...Object) Object {
 }
 
 func beginsWith(args ...Object) Object {
+	if len(args) != 2 {
+		return newError("incorrect number of operands for operator or function; operator or function: begins_with, number of operands: %d", len(args))
+	}
+
 	path := args[0]
 	substr := args[1]
 
@@ -123,6 +139,10 @@ func beginsWith(args ...Object) Object {
 }
 
 func contains(args ...Object) Object {
+	if len(args) != 2 {
+		return newError("incorrect number of operands for operator or function; operator or function: contains, number of operands: %d", len(args))
+	}
+
 	path := args[0]
 	operand := args[1]
 
@@ -139,6 +159,10 @@ func contains(args ...Object) Object {
 }
 
 func objectSize(args ...Object) Object {
+	if len(args) != 1 {
+		return newError("incorrect number of operands for operator or function; operator or function: size, number of operands: %d", len(args))
+	}
+
 	path := args[0]
 
 	switch path.Type() {
@@ -156,6 +180,10 @@ func objectSize(args ...Object) Object {
 }
 
 func ifNotExists(args ...Object) Object {
+	if len(args) != 2 {
+		return newError("incorrect number of operands for operator or function; operator or function: if_not_exists, number of operands: %d", len(args))
+	}
+
 	obj := args[0]
 
 	if obj == nil || obj.Type() == ObjectTypeNull {
@@ -166,6 +194,10 @@ func ifNotExists(args ...Object) Object {
 }
 
 func listAppend(args ...Object) Object {
+	if len(args) != 2 {
+		return newError("incorrect number of operands for operator or function; operator or function: list_append, number of operands: %d", len(args))
+	}
+
 	value1 := args[0]
 	if value1.Type() != ObjectTypeList {
 		return newError("list_append is not supported for list1=%s", value1.Type())
